@@ -139,7 +139,7 @@ Proof.
   - apply implb_intro. intros H. apply andb_true_iff in H. destruct H as [N RD].
     apply negb_true_iff in N. apply negb_true_iff in RD.
     destruct (C02_unreached_fails_proof sc st a k N RD) as (E1 & E2 & E3).
-    rewrite E1, E2, E3, state_eqb_refl. reflexivity.
+    rewrite E1, E2, state_eqb_refl. reflexivity.
   - apply implb_intro. intros H. apply andb_true_iff in H. destruct H as [RM S].
     pose proof (success_gates sc st a k (remote_not_noop a RM) S) as G.
     unfold gates_ok in G. cbv zeta in G.
@@ -275,7 +275,7 @@ Lemma model_passes_C03 : forall sc st a k,
   wf_scenario sc = true -> wf_state sc st = true -> act_ok sc a ->
   ok_C03 sc (model_rec sc st a k) = true.
 Proof.
-  intros sc st a k WS WF AOK. unfold ok_C03, model_rec. cbv zeta.
+  intros sc st a k WS WF AOK. unfold ok_C03, ok_C03_state, ok_C03_info, model_rec. cbv zeta.
   cbn [q_st q_st' q_a q_r].
   split_and.
   - apply implb_intro. intros H. apply inv3b_spec.
@@ -315,3 +315,12 @@ Print Assumptions model_passes_C04.
 Print Assumptions model_passes_C05.
 Print Assumptions model_passes_C06.
 Print Assumptions model_passes_C07.
+
+Lemma model_passes_C03_state : forall sc st a k,
+  wf_scenario sc = true -> wf_state sc st = true -> act_ok sc a ->
+  ok_C03_state sc (model_rec sc st a k) = true.
+Proof.
+  intros sc st a k WS WF AOK. pose proof (model_passes_C03 sc st a k WS WF AOK) as H.
+  unfold ok_C03 in H. apply andb_true_iff in H. tauto.
+Qed.
+Print Assumptions model_passes_C03_state.
